@@ -214,8 +214,31 @@ Arguments len : simpl never.
 Arguments nodupz : simpl never.
 Arguments subsetz : simpl never.
 
+(* the in-place filtering of the queues at the factory worker's loop head changes nothing but the two allocating lists *)
+Lemma loop_head_shape s : exists a4 a6, loop_head s = set_allocs s a4 a6.
+Proof.
+  destruct s as [st eni ty trunk x4 x6 inh fw dw reqs cap batch now held log], x4, x6.
+  unfold loop_head, prune_q, set_allocs, plen; cbn.
+  match goal with |- context [if ?c then _ else _] => destruct c end; eexists; eexists; reflexivity.
+Qed.
+Lemma prune_both_shape s : exists a4 a6, prune_both s = set_allocs s a4 a6.
+Proof.
+  destruct s as [st eni ty trunk x4 x6 inh fw dw reqs cap batch now held log], x4, x6.
+  unfold prune_both, prune_q, set_allocs; cbn. eexists; eexists; reflexivity.
+Qed.
+Arguments loop_head : simpl never.
+Arguments prune_both : simpl never.
+Ltac open_heads H :=
+  repeat match type of H with
+  | context [loop_head ?x] => let a4 := fresh "a4'" in let a6 := fresh "a6'" in let E := fresh "Eh" in
+                              destruct (loop_head_shape x) as [a4 [a6 E]]; rewrite E in H; clear E; cbn in H
+  | context [prune_both ?x] => let a4 := fresh "a4'" in let a6 := fresh "a6'" in let E := fresh "Eh" in
+                               destruct (prune_both_shape x) as [a4 [a6 E]]; rewrite E in H; clear E; cbn in H
+  end.
+
 (* ---- preservation, label by label ------------------------------------------------------------ *)
 Ltac break_step H :=
+  open_heads H;
   repeat match type of H with
   | context [match ?x with _ => _ end] => let E := fresh "E" in destruct x eqn:E; try discriminate H
   end.
@@ -241,7 +264,7 @@ Qed.
 
 Lemma inv_nochange s l s' : Inv s -> step s l = Some s' ->
   match l with
-  | LAllocReject _ _ _ _ _ | LFwArm | LFwExpire | LFwSkip | LRemoteRemove _ _ | LTick _ => True
+  | LAllocReject _ _ _ _ _ | LFwArm | LFwExpire | LFwSkip | LFwLook | LRemoteRemove _ _ | LTick _ => True
   | _ => False end -> Inv s'.
 Proof.
   intros HI Hs Hl. open_slot s. unfold Inv in *. destruct l; try contradiction; cbn in Hs |- *.
@@ -249,6 +272,7 @@ Proof.
   - break_step Hs; inversion Hs; subst; cbn; done_inv HI; intros n4 n6 H; discriminate.
   - break_step Hs; inversion Hs; subst; cbn; done_inv HI; intros n4 n6 H; discriminate.
   - break_step Hs; inversion Hs; subst; cbn; done_inv HI; intros n4 n6 H; discriminate.
+  - break_step Hs; inversion Hs; subst; cbn; exact HI.
   - destruct f; inversion Hs; subst; cbn; exact HI.
   - break_step Hs; inversion Hs; subst; cbn; exact HI.
 Qed.
@@ -1013,6 +1037,7 @@ Proof.
   - eapply inv_LWorkerCancel; eassumption.
   - eapply inv_LNoCacheExit; eassumption.
   - eapply inv_LCancel; eassumption.
+  - eapply inv_nochange; [exact HI | exact Hs | exact I].
   - eapply inv_nochange; [exact HI | exact Hs | exact I].
   - eapply inv_nochange; [exact HI | exact Hs | exact I].
   - eapply inv_nochange; [exact HI | exact Hs | exact I].
